@@ -631,6 +631,10 @@ func (p *Proxy) handle(ctx *Context, conn net.Conn, brw *bufio.ReadWriter) error
 	if err != nil {
 		return err
 	}
+	// The deadline that bounded the wait for this request was set when the wait began. The
+	// exchange gets the whole timeout for itself: the time the connection sat idle before the
+	// request arrived must not be taken out of it.
+	conn.SetDeadline(time.Now().Add(p.timeout))
 	session := ctx.Session()
 	defer func() {
 		// Closing the body reads what is left of it from the connection, which
